@@ -38,6 +38,9 @@ CHECKS = {
  "C13": ("exploration", "expected-exposition monitor: store spec vs parsed Prometheus text, both scrape paths",
    "3k/150k random stores (every kind/type, 0-3 keys, 0-5 label sets, extreme and non-finite values, hostile label values incl. invalid UTF-8, same name in several programs) scraped through registry+promhttp handler and through Exporter.Write with prog label and timestamps on/off; parsed with expfmt and compared series by series (name, labels, type, bit-exact value, cumulative buckets, +Inf=count, sum, timestamps in ms).",
    "expfmt.TextParser trusted; String-typed non-text metrics: value not checked; known finding C13-b (Write path, same name with different key sets).", "§4 C13"),
+ "C14": ("exploration", "reference model of the intended store over reload histories on a real Runtime+Store+Prometheus registry (under -race)",
+   "Every history of length <=2 (quick) / <=3 (thorough) over {load one of 11 versions (identical, comment appended, declaration moved, kind/type/keys changed, declaration removed/added, syntax error, kind clash with a second program), two line batches, GC, unload} after a fixed prefix, plus 150/5000 random length-8 histories; after every step: identical reload changes nothing (snapshot, metric identity, load counter), kept declarations keep values and pending expiry, a failed load leaves the export identical and the old version still updates it, the scrape succeeds without duplicate series, values follow the model.",
+   "For declarations that were not kept the model adopts the observed value (unspecified by the statement); barrier lines make line processing complete before observation.", "§4 C14"),
  "C15": ("exploration", "reference splitter vs real LineReader, exhaustive over short streams/chunkings",
    "Every byte string of length <=5 (quick) / <=7 (thorough) over {LF,CR,'a',0xC3,0xA9} x every chunking x buffer sizes {1,2,3,5,8,64} x 3 reader behaviours (1.0M / 90M runs), plus long random streams (lines longer than the 128KiB buffer, chunk sizes around 131072) through the default buffer.",
    "Reader driven as the streams drive it (ReadAndSend until (0,EOF), then Finish).", "§4 C15"),
